@@ -487,6 +487,18 @@ func runC04(c *core.Ctx) {
 			}
 			w.Write(p, k.content())
 		}
+		if w.Hist%12 == 9 {
+			// scale: hundreds of paths selected by one argument
+			big := k.Populate(120 + k.R.IntN(280))
+			k.goit("add", ".")
+			k.PerturbMany(big)
+			k.goit("add", "big", "src", "z")
+			k.goit("rm", "big/sub")
+			k.goit("add", ".")
+			if k.chance(50) {
+				k.Do("commit")
+			}
+		}
 		steps := c.Pick(40, 45)
 		for i := 0; i < steps; i++ {
 			k.Step()
